@@ -107,6 +107,20 @@ def gen_fcfg(rng):
         p = {"head": h, "hf": hf, "body": body, "bf": bf}
         if p not in prods:
             prods.append(p)
+    if rng.chance(0.15) and len(ts) >= 1:
+        # the same constituent both with and without a feature value (a general and a specific chart state for one
+        # production and span), combined under an agreement variable
+        vs = ["S", "A", "B"]
+        feats = feats or ["N"]
+        f = feats[0]
+        v1, v2 = rng.sample(ATOMIC[f], 2) if rng.chance(0.7) else [ATOMIC[f][0]] * 2
+        t, u = ts[0], ts[-1]
+        base = [{"head": "A", "hf": {}, "body": [t], "bf": [{}]},
+                {"head": "A", "hf": {f: v1}, "body": [t], "bf": [{}]},
+                {"head": "B", "hf": {f: v2}, "body": [u], "bf": [{}]},
+                {"head": "S", "hf": {}, "body": ["A", "B"], "bf": [{f: ["var", "x" + f]}, {f: ["var", "x" + f]}]}]
+        rng.shuffle(base)
+        prods = base + [p for p in prods if p["head"] in vs and all(b in vs + ts for b in p["body"])][:2]
     if rng.chance(0.5):
         # no epsilon productions in half of the cases (the Earley loop treats them specially)
         prods = [p for p in prods if p["body"]] or [{"head": "S", "hf": {}, "body": [ts[0]], "bf": [{}]}]
